@@ -300,6 +300,9 @@ def history(rng, version, length, profile):
         if rng.random() < 0.5 and pv in spec.VERSIONS and spec.rule_for(pv, 1, vt1) is not None:
             # the controller asks for a value that is valid under the table of the version the NODE presented
             vals[1] = set_value_for(rng, pv, vt1, unicode_ok=False)
+        if profile.get("semicolon") and vt1 in (24, 47) and rng.random() < 0.4:
+            # arbitrary text: the wire format cannot carry it, but no call that returned normally may break the pump later
+            vals[1] = rng.choice(["a;b", ";", "1;2;3;4;5;6", "x;\ny", "5;", ";;;;;"])
         ptype = {2: 3, 3: 4, 23: 16, 24: 23, 47: 36, 22: 29}[vt1]
         st += [["in", f"{n};255;0;0;17;{pv}"], ["in", f"{other};255;0;0;17;{version}"], ["in", f"{other};1;0;0;6;o"],
                ["in", f"{other};1;1;0;0;20.5"],
@@ -345,6 +348,12 @@ def history(rng, version, length, profile):
                ["in", f"{m};255;4;0;0;{cfgp}"], ["in", f"{m};255;4;0;2;{blk(0)}"],
                ["fw", n, ft, fv, None], ["in", f"{n};255;4;0;0;{cfgp}"], ["in", f"{n};255;4;0;2;{blk(1)}"]]
         st = [s for s in st if rng.random() < 0.9]
+        if rng.random() < 0.5:
+            # a malformed block request right after the first config answer (before any valid block request), then config again
+            idx = next((i for i, x in enumerate(st) if x[0] == "in" and x[1] == f"{n};255;4;0;0;{cfgp}" and any(y[0] == "fw" for y in st[:i])), None)
+            if idx is not None:
+                bad = rng.choice(["", "0", "zz", blk(0)[:-1], blk(0) + "0", blk(0)[:8], "g" * 12])
+                st[idx + 1:idx + 1] = [["in", f"{n};255;4;0;2;{bad}"], ["in", f"{n};255;4;0;0;{cfgp}"]]
         if rng.random() < 0.5:
             # the node restarts without ever asking for the firmware; the controller schedules the same update again
             extra = [["fw", [n], ft, fv, img if rng.random() < 0.3 else None], ["in", f"{n};255;0;0;17;{version}"],
